@@ -27,9 +27,9 @@ import (
 
 // Run is the entry point for C10.
 func Run(ctx *core.Ctx) {
-	ctx.Rule = "cases: message bodies = sequences of <= 4 parts from the collision pool of SoyMsg.tla (PoolC10: $a.x $b.x $x $x_1 $xx1 $a[0] $a+1 <a> <a href=x> </a> <br/> and two texts), plurals over 3 subjects x case sets {1},{0,1},{2} with case bodies from a 6-part pool, plus the extra bodies (vectors pinned by the repo's tests, tag table, grouping pairs, identifiers, globals); all enumerated by TLC with the expected names/placeholder string/id key. Each body is compiled by the real compiler repeatedly (thorough: 50x, 1000x where a suffixed name can collide with a base name; quick: 300x for those, 50x, 20x for 4-part flat bodies, 10x for bodies with < 2 named nodes) alone, several times embedded among other messages and code with varied descriptions, and in 3 fresh processes. A case is non-trivial if it has at least one named node; distinct by family id"
+	ctx.Rule = "cases: message bodies = sequences of <= 4 parts from the collision pool of SoyMsg.tla (PoolC10: $a.x $b.x $x $x_1 $xx1 $a[0] $a+1 <a> <a href=x> </a> <br/> and two texts), plurals over 3 subjects x case sets {1},{0,1},{2} with case bodies from a 6-part pool, plus nested plurals (a plural inside a case or the default of a plural, five slots filled with placeholders of one base name), the text|meaning splits of three strings, and the extra bodies (vectors pinned by the repo's tests, tag table, tag names in every letter-case pattern, grouping pairs, print directives, identifiers, globals); all enumerated by TLC with the expected names/placeholder string/id key. Each body is compiled by the real compiler repeatedly (thorough: 50x, 1000x where a suffixed name can collide with a base name; quick: 300x for those, 50x, 20x for 4-part flat bodies, 10x for bodies with < 2 named nodes) alone, several times embedded among other messages and code with varied descriptions, and in 3 fresh processes; the text|meaning splits are also compiled as histories in fresh processes (forwards, backwards, shuffled, each alone). A case is non-trivial if it has at least one named node; distinct by family id"
 	ctx.Assumptions = append(ctx.Assumptions,
-		"oracle = SoyMsg.tla (official naming algorithm over sequences; base names as pinned by soymsg/placeholder_test.go and the Closure Templates definition); tags whose name contains a digit, placeholders with print directives or phname, and html tags that contain a print are outside the model",
+		"oracle = SoyMsg.tla (official naming algorithm over sequences; base names as pinned by soymsg/placeholder_test.go and the Closure Templates definition); a tag's name is what precedes the first non-alphanumeric character, lower-cased (h1 -> START_H_1 as the identifier rule gives; whether official Soy spells it START_H1 is not settled and no repo test pins it); phname and html tags that contain a print are outside the model",
 		"the 64-bit fingerprint is uninterpreted in TLA+ (fp/mix); its arithmetic is checked by golden vectors and by an independent Go transcription (trusted base)",
 		"ids of distinct keys are assumed not to collide by chance (64-bit hash, < 10^5 keys)")
 	ctx.Trusted = append(ctx.Trusted,
@@ -101,6 +101,23 @@ func Run(ctx *core.Ctx) {
 		}
 		obs.Merge(children[i], fmt.Sprintf("proc%d", i+1))
 	}
+	// compile histories of the messages whose text+meaning collide when joined
+	var hist []*MsgCase
+	for _, c := range cases {
+		if c.IsSplit() {
+			hist = append(hist, c)
+		}
+	}
+	if len(hist) > 0 {
+		ho, nruns, err := RunHistories(ctx, hist, ctx.Seed)
+		if err != nil {
+			ctx.ToolError("history processes: %v", err)
+			return
+		}
+		obs.Merge(ho, "history")
+		ctx.Extra["history_processes"] = nruns
+		ctx.Extra["history_cases"] = len(hist)
+	}
 	ctx.Extra["fresh_processes"] = nproc
 	ctx.Extra["replay_wall_s"] = time.Since(t0).Seconds()
 
@@ -126,7 +143,7 @@ func repsFor(ctx *core.Ctx, c *MsgCase) int {
 
 // ---- M1 ---------------------------------------------------------------------
 
-const m1Invariants = "NamesAreFunction NameProps IdIgnoresDesc IdCountsMeaning KeyFollowsPhString PluralInKey ContextFree WellFormedFamily"
+const m1Invariants = "NamesAreFunction NameProps BreadthFirst TagCaseInsensitive IdIgnoresDesc IdCountsMeaning IdSeparatesTextAndMeaning KeyFollowsPhString PluralInKey ContextFree WellFormedFamily"
 
 func m1Cfg(maxParts, maxInner int, dev, only, invs string) string {
 	return fmt.Sprintf("SPECIFICATION Spec\nCONSTANTS\n  MaxParts = %d\n  MaxInner = %d\n  Dev = {%s}\n  OnlyCase = %q\nINVARIANTS %s\nCHECK_DEADLOCK FALSE\n",
@@ -160,18 +177,45 @@ func runDeviations(ctx *core.Ctx) {
 		{"id_includes_desc", "IdIgnoresDesc"},
 		{"id_drops_meaning", "IdCountsMeaning"},
 		{"skips_call_params", "ContextFree"},
+		{"depth_first", "BreadthFirst"},
+		{"id_key_joined", "IdSeparatesTextAndMeaning"},
+		{"tag_case_kept", "TagCaseInsensitive"},
 	}
 	selftest := map[string]interface{}{}
+	var wg sync.WaitGroup
+	var mu sync.Mutex
+	sem := make(chan struct{}, 3)
 	for _, d := range devs {
-		res, err := ctx.RunTLC(core.TLCOpts{Module: "SoyMsgCheck", Cfg: m1Cfg(3, 1, `"`+d.name+`"`, "", "NamesAreFunction NameProps IdIgnoresDesc IdCountsMeaning PluralInKey ContextFree"),
+		d := d
+		wg.Add(1)
+		go func() {
+			defer wg.Done()
+			sem <- struct{}{}
+			defer func() { <-sem }()
+			entry := oneDeviation(ctx, d.name, d.inv)
+			if entry != nil {
+				mu.Lock()
+				selftest[d.name] = entry
+				mu.Unlock()
+			}
+		}()
+	}
+	wg.Wait()
+	ctx.Extra["deviation_selftest"] = selftest
+}
+
+func oneDeviation(ctx *core.Ctx, name, inv string) map[string]interface{} {
+	d := struct{ name, inv string }{name, inv}
+	{
+		res, err := ctx.RunTLC(core.TLCOpts{Module: "SoyMsgCheck", Cfg: m1Cfg(2, 1, `"`+d.name+`"`, "", d.inv),
 			Workers: 1, Timeout: 10 * time.Minute, Label: "M1-deviation-" + d.name})
 		if err != nil {
 			ctx.ToolError("deviation %s: %v", d.name, err)
-			return
+			return nil
 		}
 		if res.Violated != d.inv {
 			ctx.ToolError("deviation %s: expected TLC to violate %s, got %q (vacuous invariant?)", d.name, d.inv, res.Violated)
-			return
+			return nil
 		}
 		entry := map[string]interface{}{"violates": res.Violated}
 		if d.name == "phnames_in_map_order" {
@@ -186,14 +230,14 @@ func runDeviations(ctx *core.Ctx) {
 			}
 			if cex == "" {
 				ctx.ToolError("deviation %s: no counterexample printed", d.name)
-				return
+				return nil
 			}
 			// all namings the deviating machine can produce for that body
-			r2, err := ctx.RunTLC(core.TLCOpts{Module: "SoyMsgCheck", Cfg: m1Cfg(3, 1, `"`+d.name+`"`, cex, "NamingReport"),
+			r2, err := ctx.RunTLC(core.TLCOpts{Module: "SoyMsgCheck", Cfg: m1Cfg(2, 1, `"`+d.name+`"`, cex, "NamingReport"),
 				Workers: 1, Timeout: 5 * time.Minute, Label: "M1-deviation-" + d.name + "-namings"})
 			if err != nil {
 				ctx.ToolError("deviation %s namings: %v", d.name, err)
-				return
+				return nil
 			}
 			set := map[string]bool{}
 			for _, t := range r2.Tuples {
@@ -209,12 +253,11 @@ func runDeviations(ctx *core.Ctx) {
 			entry["namings_under_deviation"] = ns
 			if len(ns) < 2 {
 				ctx.ToolError("deviation %s: expected the names of %s to be multi-valued, got %v", d.name, cex, ns)
-				return
+				return nil
 			}
 		}
-		selftest[d.name] = entry
+		return entry
 	}
-	ctx.Extra["deviation_selftest"] = selftest
 }
 
 // ---- goldens ------------------------------------------------------------------
